@@ -295,7 +295,7 @@ func main() {
 	workers := fs.Int("workers", runtime.NumCPU(), "worker processes")
 	skip := fs.Int("skip", 0, "worker: first program index")
 	only := fs.Int("only", 0, "worker: number of programs (0 = all)")
-	timeoutMs := fs.Int("timeout", 5000, "per-program watchdog in ms")
+	timeoutMs := fs.Int("timeout", 2000, "per-program watchdog in ms")
 	memMiB := fs.Int("mem", 1024, "heap ceiling per worker in MiB")
 	fs.Parse(os.Args[2:])
 	switch os.Args[1] {
